@@ -14,6 +14,7 @@ case "$PROP" in
   C07) ENGINE=sim_iter; SET=plain ;;
   C32) ENGINE=sim_generator; SET=plain ;;
   C34) ENGINE=sim_serialize; SET=plain; DUAL=1 ;;
+  C05) ENGINE=sim_load; SET=a; DUAL=1 ;;
   *) echo "HARNESS-ERROR: no engine for property $PROP" >&2; exit 2 ;;
 esac
 TDIR="$ROOT/target/$SET"
